@@ -14,4 +14,7 @@ for p in "$@"; do
   t1=$(date +%s)
   echo "== $p rc=$rc ($((t1-t0))s)"
   echo "$out" | grep -E "^VIOLATION|^KNOWN-FINDING|^OK|Traceback|Error" | head -8
+  for f in $(echo "$out" | grep -oE "replay=[^ ]+" | cut -d= -f2 | head -3); do
+    python3 -c "import json,sys;d=json.load(open('$f'));print('   ',d.get('kind'),'|',str(d.get('what'))[:260].replace(chr(10),' '))" 2>/dev/null
+  done
 done
